@@ -1,4 +1,5 @@
 import TrionModel.Lemmas.AsmBase
+import TrionModel.Lemmas.SimpE
 /-!
 # `Trion.Asm`: the primitives keep the invariant and do not panic
 (`get/insert/defer_constant`, `add_task`, `evaluate`, the region writes)
@@ -94,7 +95,7 @@ theorem addTask_safe {b : Bool} {st : St} (h : Good b st) (t : Task) (r : Realm)
     refine ⟨by simp [addTask], fun st' e => ?_⟩
     simp only [addTask, Out.ok.injEq] at e
     subst e
-    refine ⟨⟨h.inv, ?_, h.lt, h.gtab, h.ltab, h.inFile, fun hb => ⟨(h.top hb).1, (h.top hb).2.1, ?_⟩⟩, fun _ x => x, ?_⟩
+    refine ⟨⟨h.inv, ?_, h.lt, h.gtab, h.ltab, h.inFile, fun hb => ⟨(h.top hb).1, (h.top hb).2.1, ?_⟩⟩, fun _ x => x, ?_, Traced.refl st⟩
     · intro t' ht'
       rcases List.mem_append.mp ht' with m | m
       · exact h.gt t' m
@@ -130,9 +131,16 @@ theorem evaluateT_ne_panic (lk : Bytes → Simp.Lookup) (isReg : Bytes → Bool)
   rw [h] at e
   exact Simp.eval_no_panic lk isReg a e.symm
 
+theorem evaluateE_ne_panic (lk : Bytes → Simp.Lookup) (isReg : Bytes → Bool) (a : Arg) :
+    Simp.evaluateE lk isReg a ≠ .panic := by
+  intro h
+  have e := Simp.evaluateE_is_evaluateT lk isReg a
+  rw [h] at e
+  exact evaluateT_ne_panic lk isReg a e.symm
+
 theorem evalIn_ok (t : Table) (a : Arg) : ∃ ev, evalIn t a = .ok ev := by
   unfold evalIn
-  have := evaluateT_ne_panic (fun n => t.get n) Front.isRegister a
+  have := evaluateE_ne_panic (fun n => t.get n) Front.isRegister a
   split
   · split <;> exact ⟨_, rfl⟩
   · exact ⟨_, rfl⟩
@@ -180,7 +188,7 @@ theorem segStep_nonrewrite {s : Seg.State} (inv : Seg.Inv s) (op : Seg.Op) (wf :
 theorem segStep_rewrite {s : Seg.State} (inv : Seg.Inv s) (addr : Nat) (d : Bytes)
     (hp : (addr, d.length) ∈ s.pending) :
     segStep s (.rewrite addr d) ≠ .stop .panic ∧ ∀ s' o, segStep s (.rewrite addr d) = .ok (s', o) →
-      o = .ok ∧ Seg.Inv s' ∧ s'.pending = s.pending := by
+      o = .ok ∧ Seg.Inv s' ∧ s'.pending = s.pending ∧ Seg.step s (.rewrite addr d) = (s', o) := by
   have h := Seg.rewrite_spec inv addr d hp
   unfold segStep
   have e : Seg.step s (.rewrite addr d) = Seg.rewrite s addr d := rfl
@@ -189,7 +197,7 @@ theorem segStep_rewrite {s : Seg.State} (inv : Seg.Inv s) (addr : Nat) (d : Byte
   · rename_i hs; rw [hs] at h; exact absurd h.1 (by simp)
   · rename_i s1 o1 _ hs
     rw [hs] at h
-    exact ⟨by simp, fun s' o e => by cases e; exact ⟨h.1, h.2.1, h.2.2.2.2⟩⟩
+    exact ⟨by simp, fun s' o e => by cases e; exact ⟨h.1, h.2.1, h.2.2.2.2, hs⟩⟩
 
 /-- where a statement stands with respect to the regions: placed (and recorded with its length), or not yet
 placed and standing at the cursor of the active region -/
@@ -211,7 +219,8 @@ theorem writeStmt_safe {s : Seg.State} (inv : Seg.Inv s) (placed : Bool) (addr :
     (hat : At s placed addr d.length) :
     writeStmt s placed addr d ≠ .stop .panic ∧ ∀ s' p' e, writeStmt s placed addr d = .ok (s', p', e) →
       Seg.Inv s' ∧ s.pending ⊆ s'.pending ∧ At s' p' addr d.length ∧ (e = none → p' = true) ∧
-      (placed = true → p' = true) := by
+      (placed = true → p' = true) ∧
+      ∃ tr, Path s tr s' ∧ diags tr = (if e.isSome then 1 else 0) := by
   unfold writeStmt
   cases placed with
   | false =>
@@ -227,7 +236,8 @@ theorem writeStmt_safe {s : Seg.State} (inv : Seg.Inv s) (placed : Bool) (addr :
       rcases place_cases inv ha d with h1 | ⟨s2, h1, _⟩
       · rw [h1] at he
         cases he
-        exact ⟨hi, fun _ x => x, by simpa [At] using ⟨seg, ha, hcur⟩, fun e => (by cases e), fun e => (by cases e)⟩
+        exact ⟨hi, fun _ x => x, by simpa [At] using ⟨seg, ha, hcur⟩, fun e => (by cases e), fun e => (by cases e),
+          [(.place d, .diag _)], .cons inv trivial h1 (by simp) (.nil _), by simp [diags, isDiag]⟩
       · rw [h1] at he; cases he
     · rename_i s1 o1 hne hs1
       obtain ⟨he, hi⟩ := hs.2 _ _ hs1
@@ -239,7 +249,8 @@ theorem writeStmt_safe {s : Seg.State} (inv : Seg.Inv s) (placed : Bool) (addr :
         exact absurd rfl (hne _)
       · rw [h1] at he
         cases he
-        refine ⟨hi, ?_, ?_, fun _ => rfl, fun _ => rfl⟩
+        refine ⟨hi, ?_, ?_, fun _ => rfl, fun _ => rfl,
+          [(.place d, .placed seg.cur)], .cons inv trivial h1 (by simp) (.nil _), by simp [diags, isDiag]⟩
         · rw [hp]; exact fun _ x => List.mem_cons_of_mem _ x
         · simp only [At, if_true, hp, hcur]; exact List.mem_cons_self
     · rename_i r hs1
@@ -256,10 +267,12 @@ theorem writeStmt_safe {s : Seg.State} (inv : Seg.Inv s) (placed : Bool) (addr :
       obtain ⟨ho, _⟩ := hs.2 _ _ hs1
       cases ho
     · rename_i s1 o1 _ hs1
-      obtain ⟨_, hi, hpe⟩ := hs.2 _ _ hs1
+      obtain ⟨ho, hi, hpe, hst⟩ := hs.2 _ _ hs1
       refine ⟨by simp, fun s' p' e hr => ?_⟩
       cases hr
-      exact ⟨hi, by rw [hpe]; exact fun _ x => x, by simpa [At, hpe] using hp, fun _ => rfl, fun _ => rfl⟩
+      subst ho
+      exact ⟨hi, by rw [hpe]; exact fun _ x => x, by simpa [At, hpe] using hp, fun _ => rfl, fun _ => rfl,
+        [(.rewrite addr d, .ok)], .cons inv hp hst (by simp) (.nil _), by simp [diags, isDiag]⟩
     · rename_i r hs1
       refine ⟨fun e => ?_, fun s' p' e hr => by cases hr⟩
       cases e
@@ -267,8 +280,7 @@ theorem writeStmt_safe {s : Seg.State} (inv : Seg.Inv s) (placed : Bool) (addr :
 
 /-- replacing the regions of a good state by regions that extend them -/
 theorem good_setSeg {b : Bool} {st : St} (h : Good b st) {s' : Seg.State} (inv : Seg.Inv s')
-    (hp : st.seg.pending ⊆ s'.pending) : Good b { st with seg := s' } ∧ Ext st { st with seg := s' } :=
-  ⟨⟨inv, fun t m => (h.gt t m).mono hp, fun l e t m => (h.lt l e t m).mono hp, h.gtab, h.ltab, h.inFile, h.top⟩,
-   hp, fun _ m => .inl m⟩
+    (hp : st.seg.pending ⊆ s'.pending) : Good b { st with seg := s' } :=
+  ⟨inv, fun t m => (h.gt t m).mono hp, fun l e t m => (h.lt l e t m).mono hp, h.gtab, h.ltab, h.inFile, h.top⟩
 
 end Trion.Asm
